@@ -332,9 +332,17 @@ fn run_batch(ctx: &mut Ctx, pats: &[Pat], nested: bool, tagc: &str) {
         .flat_map(|ch| {
             let (text, _) = module_text(ch, nested);
             let mut out = vec![];
-            let Outcome::Ok(c) = comp::compile_ts(&[text]) else { return out };
-            let Ok(nss) = crate::tsparse::parse(&c.generated) else { return out };
-            let Some(ns) = nss.first() else { return out };
+            // as written, with a `--` comment to the end of the line behind every comma of the
+            // item lists, and with the same comment closed by `--` on the line
+            let commented = crate::props::c18::with_enumeral_comments(&text);
+            let inline = commented.replace("they say\n ", "they say -- ");
+            for (variant, text) in [("", text), (" (a comment behind every enumeral)", commented), (" (a closed comment behind every enumeral)", inline)] {
+            let Outcome::Ok(c) = comp::compile_ts(&[text]) else { continue };
+            let Ok(nss) = crate::tsparse::parse(&c.generated) else {
+                out.push((ch[0].clone(), format!("TypeScript{variant}: the output is not readable as TypeScript declarations")));
+                continue;
+            };
+            let Some(ns) = nss.first() else { continue };
             let decls = crate::tsparse::decl_map(ns);
             for (i, p) in ch.iter().enumerate() {
                 let n = p.root.len() + p.ext.as_ref().map_or(0, |e| e.len());
@@ -351,9 +359,13 @@ fn run_batch(ctx: &mut Ctx, pats: &[Pat], nested: bool, tagc: &str) {
                 };
                 match got {
                     Some(g) if g == want => {}
-                    Some(g) => out.push((p.clone(), format!("TypeScript: {tname} carries the enumeral names {g:?}, the source says {want:?}"))),
-                    None => out.push((p.clone(), format!("TypeScript: no {} declaration for {tname}", if nested { "object" } else { "enum" }))),
+                    Some(g) => out.push((p.clone(), format!("TypeScript{variant}: {tname} carries the enumeral names {g:?}, the source says {want:?}"))),
+                    None => out.push((p.clone(), format!("TypeScript{variant}: no {} declaration for {tname}", if nested { "object" } else { "enum" }))),
                 }
+            }
+            if !out.is_empty() {
+                break;
+            }
             }
             out
         })
